@@ -45,7 +45,10 @@ def process_error(e):
     least_most = "at least" if e.validator == "minProperties" else "at most"
     return SigoptValidationError(f"Expected {least_most} {e.validator_value} keys in {json.dumps(e.instance)}")
   elif e.validator == "required":
-    if isinstance(e.instance, Mapping):
+    if isinstance(e.validator_value, bool):
+      # draft 3: `required` is a boolean in the property's own subschema, the missing key ends the error's path
+      missing_key = e.path[-1] if len(e.path) > 0 else None
+    elif isinstance(e.instance, Mapping):
       missing_keys = [key for key in e.validator_value if key not in e.instance]
       missing_key = missing_keys[0] if len(missing_keys) > 0 else None
     else:
